@@ -32,15 +32,15 @@ var nodeConfig = server.Config{NotificationsRetentionTime: time.Hour}
 
 type baseStream struct{ ctx context.Context }
 
-func (b baseStream) Context() context.Context       { return b.ctx }
-func (baseStream) Header() (metadata.MD, error)     { return nil, nil }
-func (baseStream) Trailer() metadata.MD             { return nil }
-func (baseStream) CloseSend() error                 { return nil }
-func (baseStream) SendMsg(any) error                { return nil }
-func (baseStream) RecvMsg(any) error                { return nil }
-func (baseStream) SetHeader(metadata.MD) error      { return nil }
-func (baseStream) SendHeader(metadata.MD) error     { return nil }
-func (baseStream) SetTrailer(metadata.MD)           {}
+func (b baseStream) Context() context.Context   { return b.ctx }
+func (baseStream) Header() (metadata.MD, error) { return nil, nil }
+func (baseStream) Trailer() metadata.MD         { return nil }
+func (baseStream) CloseSend() error             { return nil }
+func (baseStream) SendMsg(any) error            { return nil }
+func (baseStream) RecvMsg(any) error            { return nil }
+func (baseStream) SetHeader(metadata.MD) error  { return nil }
+func (baseStream) SendHeader(metadata.MD) error { return nil }
+func (baseStream) SetTrailer(metadata.MD)       {}
 
 var errStreamClosed = errors.New("stream closed")
 
@@ -182,12 +182,12 @@ type Node struct {
 }
 
 type Cluster struct {
-	mu    sync.Mutex
-	dir   string
-	Nodes []*Node
-	Term  int64
-	RF    uint32
-	Notif bool
+	mu         sync.Mutex
+	dir        string
+	Nodes      []*Node
+	Term       int64
+	RF         uint32
+	Notif      bool
 	LastLeader string
 	// DropAppends, when set, makes the transport refuse new replicate streams to that node
 	partitioned map[string]bool
